@@ -38,7 +38,9 @@ def main(argv):
             t = sh([PY, "-m", "pytest", "-q", "-p", "no:cacheprovider", "tests"], env=dict(os.environ, PYTHONPATH=wt), cwd=wt)
             print("%s: suite: %s" % (nid, (t.stdout.strip().splitlines() or ["?"])[-1]))
             for prop in meta["checks"]:
-                env = dict(os.environ, FRAME_REPO=wt, VERIF_NO_FRESH="1")
+                env = dict(os.environ, FRAME_REPO=wt)
+                if prop != "C13":
+                    env["VERIF_NO_FRESH"] = "1"
                 env.pop("PYTHONHASHSEED", None)
                 t0 = time.time()
                 r = sh([PY, os.path.join(VERIF, "sim", "cli.py"), "check", prop, "--tier", "quick"], env=env, cwd=VERIF)
